@@ -38,6 +38,7 @@ type Engine struct {
 type runResult struct {
 	viol      *Violation
 	tape      []uint32
+	marks     []int
 	trace     []string
 	traceHash uint64
 	schedHash uint64
@@ -137,6 +138,7 @@ func execute(t *testing.T, e *Engine, seed uint64, prop, tier string, tape *Tape
 		}
 	}()
 	res.viol = r.viol
+	res.marks = tape.Marks
 	res.tape = tape.Rec
 	res.trace = r.trace
 	res.traceHash = r.traceHash
@@ -410,8 +412,8 @@ func reportViolation(t *testing.T, e *Engine, seed uint64, prop, tier string, re
 	best := append([]uint32{}, res.tape...)
 	bestRes := res
 	execs := 0
-	deadline := time.Now().Add(time.Duration(envInt("VERIF_SHRINK_S", 25)) * time.Second)
-	maxExec := int(envInt("VERIF_SHRINK_EXECS", 400))
+	deadline := time.Now().Add(time.Duration(envInt("VERIF_SHRINK_S", 40)) * time.Second)
+	maxExec := int(envInt("VERIF_SHRINK_EXECS", 1500))
 	try := func(cand []uint32) bool {
 		if execs >= maxExec || time.Now().After(deadline) {
 			return false
@@ -435,8 +437,29 @@ func reportViolation(t *testing.T, e *Engine, seed uint64, prop, tier string, re
 		bestRes.trace = append(bestRes.trace, "WARNING: violation did not reproduce from its recorded tape")
 	} else {
 		improved := true
+		segTried, segOK := 0, 0
 		for improved {
 			improved = false
+			// delete whole operations (segments between engine marks), last first
+			for i := len(bestRes.marks) - 1; i >= 0 && i < len(bestRes.marks); i-- {
+				lo := bestRes.marks[i]
+				hi := len(best)
+				if i+1 < len(bestRes.marks) {
+					hi = bestRes.marks[i+1]
+				}
+				if lo >= hi || hi > len(best) {
+					continue
+				}
+				cand := append(append([]uint32{}, best[:lo]...), best[hi:]...)
+				segTried++
+				if try(cand) {
+					improved = true
+					segOK++
+				}
+			}
+			if os.Getenv("VERIF_SHRINK_DEBUG") != "" {
+				fmt.Fprintf(os.Stderr, "shrink: segments tried %d ok %d, len now %d, marks %d, execs %d\n", segTried, segOK, len(best), len(bestRes.marks), execs)
+			}
 			// drop tail
 			for n := len(best) / 2; n >= 1; n /= 2 {
 				for len(best) > n && try(best[:len(best)-n]) {
